@@ -13,7 +13,7 @@ META = {
                "thorough": {"setting tail": "same", "phrase": "<= 24", "stretch loops": "8 iterations"}},
     "outside": ["crypt_sha1crypt_rn as a method query (no verdict in 50 minutes even with the iteration count fixed: two snprintf calls with symbolic precision plus strspn over the alphabet); it is covered through C02 (structure, concrete lengths), C10 (composition with gensalt, thorough) and C01/C07 (thorough grids)", "memory safety inside the digest/cipher kernels with symbolic data (C16/C17 cover Update/Final framing and DES)",
                 "bcrypt: the wrappers crypt_bcrypt*_rn / BF_full_crypt (self-test logic, final copy) are real, BF_crypt itself is a contract stub (models/bf_stub.c); yescrypt, scrypt, gost-yescrypt method bodies are not encoded",
-                "settings longer than the stated bounds (queries with 340..420-character settings, even with the length fixed and constant fill, gave no verdict in 25 minutes; seeds C04-m2/C06-m1 - sunmd5 space check at salt part 361 - are therefore not detected); stretch-loop iterations beyond K"],
+                "settings longer than the stated bounds (340..420-character settings gave no verdict in 25 minutes; the space checks of the methods whose result grows with the setting - sunmd5, scrypt, yescrypt - are instead exercised at every out_size <= 64/72 with short settings, which is where seeds C04-m2/C06-m1/C05-m4 show up); stretch-loop iterations beyond K"],
     "assumptions": ["setting passed to a method contains no byte rejected by check_badsalt_chars (do_crypt establishes it: C05)",
                     "havoc digest models (models/digest_havoc.c): arbitrary digest bytes, context zeroed on Final"],
     "trusted": [],
@@ -30,5 +30,9 @@ def queries(tier, seed, build):
         qs.append(method_query(m, "c04-" + n, cap_k=3 if tier == "quick" else 8,
                                max_p=m.max_p if tier == "quick" else max(m.max_p, 24),
                                timeout=900 if tier == "quick" else 3000))
+    # space checks that are linear in out_size and the setting length, at every out_size <= cap
+    for n, ms, cap in (("sunmd5", 6, 64), ("yescrypt", 6, 64), ("scrypt", 12, 72)):
+        qs.append(method_query(BY_NAME[n], "c04-%s-osize" % n, max_s=ms, max_p=1,
+                               extra_defs=["SYM_OUT_SIZE", "OSIZE_CAP=%d" % cap], timeout=900 if tier == "quick" else 3000))
     qs.append(bf_core_query('c04-bcrypt-core'))
     return qs
